@@ -52,6 +52,9 @@ INT_TYPES = {
     'size_type': (64, False),
     'long': (64, True), 'int64_t': (64, True), 'ptrdiff_t': (64, True), 'long long': (64, True), 'std::ptrdiff_t': (64, True),
     'float': (32, False), 'double': (64, False),        # floats are carried as their bit patterns
+    'std::ios_base::fmtflags': (32, False), 'std::_Ios_Fmtflags': (32, False), 'fmtflags': (32, False),
+    'std::streamsize': (64, True), 'streamsize': (64, True),
+    'std::basic_ios<char>::char_type': (8, True), 'char_type': (8, True),
 }
 
 
@@ -189,6 +192,7 @@ class State(object):
         self.elems = {}       # element object path -> (array object path, index term)
         self.ret = None
         self.trace = []
+        self.log = []         # what has been inserted into output streams: [(stream path, kind, payload, width, fill, flags)]
 
     def copy(self):
         s = State()
@@ -198,6 +202,7 @@ class State(object):
         s.mem = self.mem
         s.ghost = dict(self.ghost)
         s.elems = dict(self.elems)
+        s.log = list(self.log)
         s.ret = self.ret
         s.trace = list(self.trace)
         return s
@@ -225,8 +230,9 @@ class Contract(object):
     `args` maps parameter name -> value (for reference parameters of scalar type: the current value)."""
 
     def __init__(self, name, match, requires=None, ensures=None, modifies=(), setup=None, loops=None, havoc_objs=(),
-                 props=(), verify=True, params=None):
+                 props=(), verify=True, params=None, effect=None):
         self.name, self.match = name, match
+        self.effect = effect        # effect(cx, s0, a0, s1, a1, ret): abstract stream-log entries a call contributes
         self.requires = requires or (lambda cx, st, a: [])
         self.ensures = ensures or (lambda cx, st0, a0, st1, a1, ret: [])
         self.modifies, self.setup, self.loops = tuple(modifies), setup, loops or {}
@@ -539,6 +545,8 @@ class Cx(object):
             return v.t != z3.BitVecVal(0, v.bits)
         if isinstance(v, CPtr):
             return v.addr != z3.BitVecVal(0, 64)
+        if isinstance(v, tuple) and v and v[0] == 'strlit':
+            return z3.BoolVal(True)         # a string literal is a non-null pointer
         raise OutOfReach('truth value of %r' % (v,))
 
     def eval(self, st, node):
@@ -573,6 +581,16 @@ class Cx(object):
     def e_IntegerLiteral(self, st, node):
         ct = self.ntype(node)
         return [(st, const_int(int(node['value']), ct.bits, ct.signed))]
+
+    def e_StringLiteral(self, st, node):
+        v = node.get('value', '""')
+        if v.startswith('"') and v.endswith('"'):
+            v = v[1:-1]
+        return [(st, ('strlit', v))]
+
+    def e_CharacterLiteral(self, st, node):
+        ct = self.ntype(node)
+        return [(st, const_int(int(node['value']), ct.bits or 8, ct.signed))]
 
     def e_CXXBoolLiteralExpr(self, st, node):
         return [(st, CBool(z3.BoolVal(bool(node.get('value')))))]
@@ -670,6 +688,8 @@ class Cx(object):
                 out.append((s, p))
             return out
         if ck == 'ArrayToPointerDecay':
+            if sub.get('kind') == 'StringLiteral':
+                return self.eval(st, sub)
             raise OutOfReach('array decay')
         out = []
         if ck == 'LValueBitCast':
@@ -959,6 +979,17 @@ class Cx(object):
     def e_CXXConstructExpr(self, st, node):
         ct = self.ntype(node)
         args = self.kids(node)
+        if ct.kind == 'obj' and (ct.name or '').endswith('indent_t') and len(args) == 1:
+            # prophy::detail::indent_t(level): a one-field value object
+            out = []
+            for s, v in self.rvalue(st, args[0]):
+                if isinstance(v, CObj):
+                    out.append((s, v))          # copy construction
+                    continue
+                path = 'indent_t!%d' % next(_counter)
+                s.objs[path] = {'level': cast_int(v, 32, True)}        # indent_t(int level_): level(level_)
+                out.append((s, CObj(path, ct)))
+            return out
         if ct.kind == 'obj' and 'optional<' in ct.name:
             if not args:
                 return [(st, ('optional', z3.BoolVal(False)))]
@@ -975,6 +1006,17 @@ class Cx(object):
             return [(st, ('object', ct))]
         if len(args) == 1 and 'iterator' in (ct.name or ''):
             return self.eval(st, args[0])          # copy of v.begin() / v.end()
+        if len(args) == 1 and 'pair<' in (ct.name or ''):
+            # copy of a std::pair value (bytes): the copy is only read, so it may share the source's attributes
+            out = []
+            for s, v in self.eval(st, args[0]):
+                if isinstance(v, LVal) and v.ct.kind == 'obj':
+                    out.append((s, CObj(self._lv_path(v, s), ct)))
+                elif isinstance(v, CObj):
+                    out.append((s, CObj(v.path, ct)))
+                else:
+                    out.append((s, ('object', ct)))
+            return out
         # copy / conversion construction of other class types: value not tracked
         return [(st, ('object', ct))]
 
@@ -1024,6 +1066,8 @@ class Cx(object):
                 else:
                     raise OutOfReach('operator* on %r' % (lv,))
             return out
+        if name == 'operator<<':
+            return self.stream_insert(st, callee, argn, node)
         if name == 'operator!':
             for s1, lv in self.eval(st, argn[0]):
                 if isinstance(lv, LVal) and lv.ct.kind == 'obj' and 'optional<' in lv.ct.name:
@@ -1034,7 +1078,82 @@ class Cx(object):
             return out
         raise OutOfReach('operator call %s' % name)
 
+    # ----- std::ostream (assumed contracts): sticky flags and fill, width consumed by the next insertion
+    def is_stream(self, ct):
+        n = (ct.name or '') if ct is not None and ct.kind == 'obj' else ''
+        return 'ostream' in n or 'ios_base' in n or 'basic_ios' in n
+
+    def stream_attrs(self, st, path):
+        fl = self.obj_attr(st, path, 'flags', z3.BitVecSort(32))
+        fi = self.obj_attr(st, path, 'fill', z3.BitVecSort(8))
+        w = self.obj_attr(st, path, 'width', BV64)
+        return fl, fi, w
+
+    def stream_insert(self, st, callee, argn, node):
+        """out << v for the std:: overloads (declarations outside the dump); prophy's own overloads go through their
+        contracts / bodies"""
+        fn = self.ix.decl(callee[1])
+        if fn is not None and (self.contract_for(fn) is not None or self.ix.has_body(fn)):
+            c = self.contract_for(fn)
+            if c is not None and not (self.current and self.current[2] is fn):
+                return self.call_by_contract(st, fn, c, argn, node)
+            return self.inline(st, fn, argn, node)
+        sig = callee[2].get('type', {}).get('qualType', '')
+        ptypes = _split_params(sig)
+        vtype = ptypes[-1].strip() if ptypes else ''
+        out = []
+        for s1, lv in self.eval(st, argn[0]):
+            if isinstance(lv, CObj) and self.is_stream(lv.ct):
+                lv = LVal('obj', lv.ct, path=lv.path)
+            if not (isinstance(lv, LVal) and self.is_stream(lv.ct)):
+                raise OutOfReach('operator<< on %r' % (lv,))
+            path = self._lv_path(lv, s1)
+            for s2, v in self.rvalue(s1, argn[1]):
+                fl, fi, w = self.stream_attrs(s2, path)
+                self.assumed.add('std::ostream (assumed contract): flags and fill are sticky, width applies to the next '
+                                 'insertion and is then reset to 0; std::hex sets the number base in the flags')
+                if isinstance(v, tuple) and v[0] == 'fn':
+                    mname = v[2].get('name')
+                    if mname not in ('hex', 'dec', 'oct'):
+                        raise OutOfReach('stream manipulator %s' % mname)
+                    f = z3.Function('setbase_' + mname, z3.BitVecSort(32), z3.BitVecSort(32))
+                    self.set_attr(s2, path, 'flags', f(fl))
+                    out.append((s2, lv))
+                    continue
+                if isinstance(v, tuple) and v[0] == 'strlit':
+                    entry = ('str', v[1])
+                elif isinstance(v, CPtr):
+                    entry = ('cstr', v.addr)
+                elif isinstance(v, CInt):
+                    entry = ('char', v.t) if vtype == 'char' else ('num', v.t, v.bits, v.signed)
+                elif isinstance(v, CBool):
+                    entry = ('bool', v.t)
+                else:
+                    raise OutOfReach('insertion of %r' % (v,))
+                s2.log.append((path, entry, w, fi, fl))
+                self.set_attr(s2, path, 'width', z3.BitVecVal(0, 64))
+                out.append((s2, lv))
+        return out
+
+    def stream_method(self, st, obj, name, argn, node):
+        path = obj.path
+        fl, fi, w = self.stream_attrs(st, path)
+        key = {'flags': 'flags', 'fill': 'fill', 'width': 'width'}.get(name)
+        if key is None:
+            raise OutOfReach('stream member %s' % name)
+        old = {'flags': fl, 'fill': fi, 'width': w}[key]
+        bits = {'flags': 32, 'fill': 8, 'width': 64}[key]
+        out = []
+        if not argn:
+            return [(st, CInt(old, bits, key == 'width'))]
+        for s1, v in self.rvalue(st, argn[0]):
+            self.set_attr(s1, path, key, cast_int(v, bits, False).t)
+            out.append((s1, CInt(old, bits, key == 'width')))
+        return out
+
     def call(self, st, callee, argn, node):
+        if isinstance(callee, tuple) and callee[0] == 'method' and self.is_stream(callee[1].ct):
+            return self.stream_method(st, callee[1], callee[2], argn, node)
         if isinstance(callee, tuple) and callee[0] == 'method':
             mfn = self.ix.decl(callee[3]) if len(callee) > 3 and callee[3] else None
             tn = callee[1].ct.name or ''
@@ -1074,6 +1193,14 @@ class Cx(object):
                     lo = z3.If(c, a.t, b.t) if name == 'min' else z3.If(c, b.t, a.t)
                     out.append((s2, CInt(lo, a.bits, a.signed)))
             self.assumed.add('std::%s(a, b) (assumed contract: the smaller / larger argument)' % name)
+            return out
+        if name == 'make_pair':
+            out = []
+            for s1, a in self.rvalue(st, argn[0]):
+                for s2, b in self.rvalue(s1, argn[1]):
+                    path = 'pair!%d' % next(_counter)
+                    s2.objs[path] = {'first': a, 'second': b}
+                    out.append((s2, CObj(path, self.ntype(node))))
             return out
         if name == 'accumulate':
             # std::accumulate(v.begin(), v.end(), size_t(), byte_size()) -- the ghost sum of element sizes
@@ -1285,12 +1412,20 @@ class Cx(object):
                     s.assume(self._sumsize_fn()(na, z3.BitVecVal(0, 64)) == 0)
             rct, _ = parse_qual(self, self.ix.signature(fn).split('(')[0])
             ret = None if rct.kind == 'void' else self.fresh_value(rct, '%s.ret' % c.name)
+            if self.is_stream(rct):
+                # `std::ostream& f(std::ostream& out, ...)` returns the stream it was given
+                for name, (p, v) in bound.items():
+                    if isinstance(v, LVal) and self.is_stream(v.ct):
+                        ret = LVal('obj', v.ct, path=self._lv_path(v, s))
+                        break
             a1 = self.arg_values(s, bound)
             a1['__fn'] = fn
             if this is not None:
                 a1['this'] = this
             for label, f in c.ensures(self, s0, a0, s, a1, ret):
                 s.assume(f)
+            if c.effect:
+                c.effect(self, s0, a0, s, a1, ret)
             out.append((s, ret))
         return out
 
@@ -1546,6 +1681,7 @@ class Cx(object):
                     nv = CPtr(nv.addr, old.elem, (old.arr[0], fresh('idx', BV64)), fresh('cap', BV64))
                     nv.base_path = old.base_path
                 self.store(s, lv, nv)
+        s.log = s.log + [('loop', ordinal)]         # insertions made by earlier iterations: not tracked individually
         for name in (spec.modifies or ()):
             if name == 'mem':
                 s.mem = fresh('mem', z3.ArraySort(BV64, z3.BitVecSort(8)))
